@@ -3,6 +3,16 @@ import json, os
 from vlib import common as C, coapgen as G
 from vlib.tables import render_optlen
 
+MANIFEST = {
+    "text": "Lean theorem parse_eq_spec: for every framing and every byte string the transcription M of coap_pdu_parse & callees accepts iff "
+            "the RFC decoder S does, with equal decoded content; clause theorems (reserved nibbles, number > 65535, truncation, marker without "
+            "payload, non-empty Empty, length table) about S; the accessor walk equals the decoder's view; the per-option length table is "
+            "regenerated from the code and proved equal to the RFCs' table. M is tied to the compiled code by differential runs (I vs M vs S) "
+            "on generated and field-mutated byte strings for all three framings.",
+    "note": "Trusted: Lean kernel (+ propext, Classical.choice, Quot.sound), the T1 extractor and T2 harness/generators, the hand "
+            "transcription M (checked against the compiled code on the cases run only). TCP is judged per frame (SPEC DECISION D10).",
+    "design_ref": "DESIGN.md §4 C03",
+}
 LEAN_MODULES = ["CoapVerif.Props.C03"]
 NAMESPACE = "Coap.C03"
 REQUIRED_THEOREMS = ["parse_eq_spec", "optLenTable_matches_rfc", "reserved_nibble_rejected",
